@@ -121,6 +121,10 @@ def check(case):
     mem = case.get("mem", ["C"] * 5)
     fixed = gen.as_layout(case["fixed"], mem[0])
     built = gen.as_layout(case["built_with"], mem[1])
+    if case["seed"] % 4 == 0:
+        # the calculator is built with a mobile configuration on an integer grid (an integer array, as in the
+        # repository's own tests): only the number of mobile atoms is taken from it
+        built = np.round(np.array(case["built_with"], float)).astype(np.int64 if case["seed"] % 8 else np.int32)
     restr = [tuple(r) for r in case["restr"]] if case["as_tuples"] else [list(r) for r in case["restr"]]
     rlist = [tuple(r) for r in case["restr"]]
     rcont = case.get("rcont", "list")
@@ -195,7 +199,8 @@ def check(case):
             raise PropertyViolation("relabel-invariance", "value %r becomes %r after consistent relabelling" % (base, perm))
     path = "path:none" if not rlist else ("path:all" if len(set(i for i, _ in rlist)) == len(fixed) else "path:some")
     classes = ["restr:" + case["rkind"], path, "layout:" + case["layout"],
-               "k>=1" if max(ks) >= 1 else "k=0", "mem:" + ("C" if set(mem) <= {"C"} else "mixed"), "restraints-as:" + rcont]
+               "k>=1" if max(ks) >= 1 else "k=0", "mem:" + ("C" if set(mem) <= {"C"} else "mixed"), "restraints-as:" + rcont,
+               "built-with:" + ("int" if case["seed"] % 4 == 0 else "float")]
     if any_tie:
         classes.append("tie")
     return {"nontrivial": max(ks[:2]) >= 1, "classes": classes,
